@@ -3,7 +3,7 @@
 # hybrid /XRefStm), run through the real qpdf and the in-process driver, and compared with the extracted model
 # (coq/Sys/Guards.v) on the same graph: outcome category, number of pages / entries / helpers / warnings.
 # Plus the bound: CPU time and peak RSS of every qpdf run stay within a budget linear in the input size.
-import os, re, subprocess, time
+import os, re, resource, subprocess, time
 import common, pdfgen
 from pdfgen import D, Ref, Str, Name, Stream
 
@@ -541,6 +541,12 @@ def gen_nn(rng, quick):
     add("find-badnode", {1: (0, False, [2, 3], 0, 1000), 2: (2, True, [], 0, 0), 3: (0, False, [], 5, 10 ** 7)}, 1, 10 ** 6)
     add("find-minus1", {1: (0, False, [2, 3], 0, 1000), 2: (2, True, [], 0, 0), 3: (0, False, [2], 5, 10 ** 7)}, 1, 10 ** 6)
     add("self-loop", {1: (0, False, [1], 0, 1000)}, 1)
+    # opening a tree (validate, repair): a shared leaf, leaves out of order, and the re-entry budget of the repaired
+    # repair() at its boundary (1000 re-entries are tolerated, the 1001st gives up)
+    add("shared-leaf", {1: (0, False, [2, 2, 3], 0, 1000), 2: (4, True, [], 0, 0), 3: (2, True, [], 0, 0)}, 1)
+    add("unsorted-leaves", {1: (0, False, [3, 2], 0, 1000), 2: (4, True, [], 0, 0), 3: (2, True, [], 0, 0)}, 1)
+    for refs in (1001, 1002):
+        add("reentry-%d" % (refs - 1), {1: (0, False, [2] * refs + [3], 0, 1000), 2: (2, True, [], 0, 0), 3: (2, True, [], 0, 0)}, 1)
     k = 60 if quick else 600
     nodes = {i: (0, False, [i + 1], 0, 100000) for i in range(1, k + 1)}
     nodes[k + 1] = (2, True, [], 7, 7)
@@ -588,9 +594,24 @@ def nn_model_lines(c, cap):
     full = nn_limits_ok(c)
     parts = []
     for i, (items, hasitems, kids, lo, hi) in sorted(c["nodes"].items()):
-        parts.append("%d:%d:%d:%d:%s" % (i, items, 1 if hasitems else 0, nn_pick(c, i) if full else -1, ids(kids)))
+        klo = nn_key(i, 0)
+        khi = nn_key(i, max(items // 2 - 1, 0))
+        parts.append("%d:%d:%d:%d:%d:%d:%s" % (i, items, 1 if hasitems else 0, nn_pick(c, i) if full else -1, klo, khi, ids(kids)))
     g = ";".join(parts)
-    return ["c4nniter %d %d %s" % (cap, c["root"], g), "c4nnfind %d %s" % (c["root"], g)]
+    return ["c4nniter %d %d %s" % (cap, c["root"], g), "c4nnfind %d %s" % (c["root"], g), "c4nnopen %d %d %s" % (cap, c["root"], g)]
+
+
+def nn_open_expect(iter_out, open_out):
+    """what opening the tree as the library does (validate(true)) and then iterating it shows"""
+    if "FUEL" in open_out or "?" in open_out[:1]:
+        return None
+    kv = dict(x.split("=") for x in open_out.split())
+    ki = dict(x.split("=") for x in iter_out.split())
+    if kv["valid"] == "1":
+        if ki["done"] != "1":
+            return None
+        return "valid=1 repaired=0 gaveup=0 warns=%s entries=%s" % (kv["vwarns"], ki["entries"])
+    return "valid=0 repaired=1 gaveup=%s warns=%d entries=%s" % (kv["gaveup"], int(kv["vwarns"]) + 1 + int(kv["rwarns"]), kv["distinct"])
 
 
 def nn_pdf(c, names=False):
@@ -902,7 +923,8 @@ def run_part(chk, quick):
                 fails.append((cases[i], files[i][0], "ASan+UBSan run did not end in a documented way (rc=%s)" % rc, (argsof[cases[i]["kind"]], rc, se[-1200:].decode("latin-1"))))
         chk.count("guards-cli-asan", len(sample), ())
 
-    # ---- name trees through the CLI: budget only (the tree is repaired before it is listed)
+    # ---- name trees through the CLI: budget only (the tree is repaired before it is listed).  doubled-21 is the revert
+    #      confirmation of the fix of D-C04-nntree-dag: without it --list-attachments needs seconds for a 3 kB file
     nn_cases = gen_nn(rng, quick)
     cli_nn = [c for c in nn_cases if c["tag"] != "random"][:8]
     dag = {i: (0, False, [i + 1, i + 1], 0, 99999999) for i in range(1, 22)}
@@ -928,15 +950,56 @@ def run_part(chk, quick):
                               (["--list-attachments"], rc, se[-300:].decode("latin-1"))))
     chk.count("guards-nametree-cli", len(cli_nn), ())
 
-    # ---- number trees through the driver: iteration counts and find outcome
+    # ---- number trees through the driver: plain iteration counts, find outcome, and opening the tree the way the
+    #      library does (validate(true): validate, repair on failure) followed by an iteration of the result
     cap = 100000
-    dl, ml2 = [], []
+    dl, dlo, ml2 = [], [], []
     for c in nn_cases:
         data, rootobj = nn_pdf(c)
         dl.append("c4nn %s %d %d %d" % (data.hex(), rootobj, cap, c["probe"]))
+        dlo.append("c4nnopen %s %d %d" % (data.hex(), rootobj, cap))
         ml2 += nn_model_lines(c, 400000)
     douts = run_driver_lines(drv, dl, fails, "c4nn")
-    mo2 = common.run_lines(model, ml2, shards=4)
+    doouts = run_driver_lines(drv, dlo, fails, "c4nnopen")
+    mo3 = common.run_lines(model, ml2, shards=4)
+    mo2 = [x for k in range(len(nn_cases)) for x in (mo3[3 * k], mo3[3 * k + 1])]
+    open_cats = {}
+    for k, c in enumerate(nn_cases):
+        exp = nn_open_expect(mo3[3 * k], mo3[3 * k + 2])
+        o = doouts[k]
+        if o.startswith(("?", "!")):
+            fails.append((c, None, "driver (c4nnopen): " + o[:300], None)); continue
+        kv = dict(x.split("=", 1) for x in o.split() if "=" in x)
+        if exp is None or kv["done"] != "1":
+            open_cats["capped"] = open_cats.get("capped", 0) + 1
+            continue
+        got = "valid=%s repaired=%s gaveup=%s warns=%s entries=%s" % (kv["valid"], kv["repaired"], kv["gaveup"], kv["warns"], kv["entries"])
+        key = " ".join(exp.split()[:3])
+        open_cats[key] = open_cats.get(key, 0) + 1
+        if got != exp:
+            diffs.append((c, None, got, exp, ml2[3 * k + 2]))
+    chk.count("guards-numbertree-open", len(nn_cases), set(ml2[3 * k + 2] for k in range(len(nn_cases))))
+    chk.cov["parts"]["guards-numbertree-open"]["outcome_categories"] = open_cats
+
+    # ---- the plain iteration of the public helpers is NOT guarded (D-C04-nntree-dag-api): one timed case in a process of its own
+    data, rootobj = nn_pdf(cli_nn[-1])
+    api_line = "c4nn %s %d %d %d" % (data.hex(), rootobj, 10 ** 8, 7)
+    for attempt in (0, 1):
+        r0 = resource.getrusage(resource.RUSAGE_CHILDREN)
+        o = _drv(drv, [api_line], WALL_TIMEOUT)
+        r1 = resource.getrusage(resource.RUSAGE_CHILDREN)
+        cpu = (r1.ru_utime + r1.ru_stime) - (r0.ru_utime + r0.ru_stime)
+        if o is not None and cpu <= CPU_BUDGET[0] + CPU_BUDGET[1] * len(data):
+            break
+    else:
+        fp = os.path.join(wd, "nnapi-doubled-21.txt")
+        open(fp, "w").write(api_line + "\n")
+        fails.append(({"kind": "nnapi", "tag": "doubled-21"}, fp,
+                      "time out of proportion to the input: %s for a %d byte file (budget %.2f s): for (auto i: QPDFNumberTreeObjectHelper) on a tree whose "
+                      "levels list the next level twice; the iterator only remembers the nodes of its current path (driver line in `input`)" % (
+                          "killed after %d s" % WALL_TIMEOUT if o is None else "cpu %.2f s" % cpu, len(data), CPU_BUDGET[0] + CPU_BUDGET[1] * len(data)), None))
+    chk.count("guards-numbertree-api-time", 1, ())
+
     nn_cats = {}
     for k, c in enumerate(nn_cases):
         it, f, w = nn_expect(c, mo2[2 * k], mo2[2 * k + 1])
@@ -950,8 +1013,8 @@ def run_part(chk, quick):
             of = "ok" if f == "ok" and not w[0].startswith("leaf:") else of
         nn_cats[it.split()[0][:9] + "/" + f] = nn_cats.get(it.split()[0][:9] + "/" + f, 0) + 1
         if (it, f) != (oit, of):
-            diffs.append((c, None, "%s find=%s" % (oit, of), "%s find=%s" % (it, f), ml2[2 * k]))
-    chk.count("guards-numbertree-driver", len(nn_cases), set(ml2[2 * k] for k in range(len(nn_cases))))
+            diffs.append((c, None, "%s find=%s" % (oit, of), "%s find=%s" % (it, f), ml2[3 * k]))
+    chk.count("guards-numbertree-driver", len(nn_cases), set(ml2[3 * k] for k in range(len(nn_cases))))
     chk.cov["parts"]["guards-numbertree-driver"]["outcome_categories"] = nn_cats
 
     # ---- parser limits and conversions through the driver
